@@ -654,7 +654,9 @@ pub fn c03_threads(cfg: C03Cfg, bound: u32) -> ThHarness {
                             if shared.lock().unwrap().0.done.iter().all(|d| *d) {
                                 break;
                             }
-                            shared.lock().unwrap().0.events.push((0, "ring-poll-begin".into(), crate::waker::tick()));
+                            // A call that finds completions ready hands those over and does not enter the kernel.
+                            let ready = simk::with(|k| k.rings[0].cq_ready() != 0 || !k.rings[0].overflow.is_empty());
+                            shared.lock().unwrap().0.events.push((0, if ready { "ring-poll-begin:ready".into() } else { "ring-poll-begin".into() }, crate::waker::tick()));
                             talloc::track(|| {
                                 let _ = ring.poll(Some(Duration::from_secs(1)));
                             });
@@ -697,17 +699,19 @@ pub fn c03_threads(cfg: C03Cfg, bound: u32) -> ThHarness {
                     // poll began (completion case: the operation's lock orders
                     // them) or returned (queue-full case: "a subsequent call").
                     let after = if blocked_for_slot { last_end.2 } else { last_begin.2 };
-                    let mut begun: Option<u64> = None;
+                    let mut begun: Option<(u64, bool)> = None;
                     let mut complete_polls_after = Vec::new();
                     for (th, e, c) in &s.events {
                         if *th != 0 {
                             continue;
                         }
-                        if e == "ring-poll-begin" {
-                            begun = Some(*c);
+                        if e.starts_with("ring-poll-begin") {
+                            begun = Some((*c, e.ends_with(":ready")));
                         } else if e.starts_with("ring-poll-end") {
-                            if let Some(b) = begun.take() {
-                                if b > after {
+                            if let Some((b, ready)) = begun.take() {
+                                // Freed queue space is demanded only of calls that go into the kernel (§11.1b):
+                                // one that starts with completions ready is followed by one that does.
+                                if b > after && !(blocked_for_slot && ready) {
                                     complete_polls_after.push(e.clone());
                                 }
                             }
